@@ -43,6 +43,13 @@ impl<P: MNT4Config> From<G2Affine<P>> for G2Prepared<P> {
             addition_coefficients: vec![],
         };
 
+        // The point at infinity has no line functions (the formulas below would
+        // reach `Z = 0` and invert it). Leave the coefficient lists empty;
+        // `ate_miller_loop` maps such a prepared point to one.
+        if g.infinity {
+            return g_prep;
+        }
+
         let mut r = G2ProjectiveExtended {
             x: g.x,
             y: g.y,
@@ -83,6 +90,13 @@ impl<P: MNT4Config> From<G2Affine<P>> for G2Prepared<P> {
         }
 
         g_prep
+    }
+}
+
+impl<P: MNT4Config> G2Prepared<P> {
+    /// Is this the prepared point at infinity (no line coefficients)?
+    pub fn is_zero(&self) -> bool {
+        self.double_coefficients.is_empty()
     }
 }
 
